@@ -262,7 +262,10 @@ func run9(t *testing.T, c Case9) (v *verdict, nontrivial bool, labels []string) 
 		// handler raised the failure and the consultation about it, the actor handles no user message
 		if !c.Racing { // with bursts released together, directives of an earlier decision may still be in flight when the next failure happens
 			if d := handledWhileFailed(tr, w.ConsultsCopy()); d != "" {
-				v = &verdict{"C09/runs-while-failed", d + "; its trace: " + world.Fmt(tailN(per[failedActorOf(d)], 16))}
+				if os.Getenv("VERIF_DEBUG") != "" {
+				fmt.Println("FULL TRACE:", world.Fmt(tr), "\nEVENTS:", world.FmtObs(obs), "\nCONSULTS:", fmtConsults(w.ConsultsCopy()))
+			}
+			v = &verdict{"C09/runs-while-failed", d + "; its trace: " + world.Fmt(tailN(per[failedActorOf(d)], 16))}
 				return
 			}
 			lab["suspended-until-decision-checked"] = true
@@ -579,7 +582,8 @@ func TestReplay9(t *testing.T) {
 // it is about is the child's last failing delivery after the previous consultation about the same child (none: an
 // escalated consultation, the child did not fail itself); between that delivery and the consultation the child must
 // not handle a user message - unless another consultation lies in between (a sibling's failure under one-for-all or
-// an ancestor's restart may legitimately have resumed or drained it). Returns a description, "" if the clause holds.
+// an ancestor's restart may legitimately have resumed or drained it) or the child was restarted in between by a directive
+// that was already on its way when it failed. Returns a description, "" if the clause holds.
 func handledWhileFailed(tr []world.Ev, consults []world.Consult) string {
 	prevConsult := map[string]int{}
 	for _, cs := range consults {
@@ -605,6 +609,11 @@ func handledWhileFailed(tr []world.Ev, consults []world.Consult) string {
 			continue
 		}
 		for i := f + 1; i < cs.TraceIdx && i < len(tr); i++ {
+			if tr[i].Actor == cs.Child && (tr[i].Kind == "launch" || tr[i].Kind == "hook:restarted") {
+				// a restart directive decided before this failure (an earlier one-for-all round still in flight) has
+				// replaced the failed incarnation: what the new one handles is not the failed actor running on
+				break
+			}
 			if tr[i].Actor == cs.Child && tr[i].Kind == "msg" && tr[i].Inst == tr[f].Inst {
 				return fmt.Sprintf("%s failed (%s) and, before its supervisor %s was consulted about that failure, handled %s: a failed actor is suspended until the decision", cs.Child, tr[f].String(), cs.Supervisor, tr[i].String())
 			}
